@@ -123,7 +123,10 @@ func (ci *ChunkInfo) UpdateChunkInfoSource(rootCid, sourceOverlay boson.Address,
 		return fmt.Errorf("chunk info : source is not exists")
 	}
 
-	v := ci.getCidSort(rootCid, cid)
+	v, isData := ci.getCidSort(rootCid, cid)
+	if !isData {
+		return nil
+	}
 	for _, bit := range ci.cs.presence[rc].ChunkSource {
 		if bit.Get(v) {
 			return nil
